@@ -34,6 +34,7 @@ pub fn push_lists() -> Vec<Vec<R>> {
         vec![R::word("k0")], // an element the initial terms already contain
         vec![R::placeholder()],
         vec![R::node(Tag::SetExt, vec![b.clone(), a.clone()])],
+        vec![a.clone(), b.clone(), R::word("C"), R::word("D")], // more elements than any initial term
     ]
 }
 
@@ -58,7 +59,10 @@ pub fn inits() -> Vec<R> {
     ];
     for &tag in COMPOUND_TAGS.iter().chain(STATEMENT_TAGS.iter()) {
         match tag.shape() {
-            Shape::Set | Shape::Seq => v.push(R::node(tag, vec![k0.clone(), k1.clone()])),
+            Shape::Set | Shape::Seq => {
+                v.push(R::node(tag, vec![k0.clone(), k1.clone()]));
+                v.push(R::node(tag, vec![k0.clone()])); // fewer elements than most push lists
+            }
             Shape::Image => {
                 for idx in 0..=2 {
                     v.push(R::image(tag, idx, vec![k0.clone(), k1.clone()]));
@@ -280,7 +284,7 @@ pub fn run(run: &Run) {
     run.rule(
         "initial states: one term per constructor (images at index 0/1/n and empty); actions: \
          set_atom_name over 26 strings (empty, signed, leading zeros, usize::MAX, overflow, padded, \
-         hex, non-ASCII digit, dashed) and push_components over 7 lists (empty, 1, 2, duplicate, \
+         hex, non-ASCII digit, dashed) and push_components over 8 lists (empty, 1, 2, duplicate, \
          existing element, placeholder, compound); stateright BFS to depth 3 (5 thorough) over the \
          real term, deduplicated on its canonical form; every transition compared with the \
          reference model (outcome, post-state, get_atom_name; unchanged on Err); distinct = unique \
